@@ -16,21 +16,39 @@ pub fn def() -> PropDef {
 
 fn run(r: &mut Run) -> Result<(), MachineryError> {
     let t = r.tier;
-    let alpha = [SP, TAB, L, NL, CRLF, NB, L, SHY];
+    let alpha = [SP, SP2, TAB, L, NL, CRLF, NB, SHY];
     let n = t.pick(7, 9);
     let space = Space { name: "C19/texts".into(), menu: menu(&alpha), max_len: n, desc: format!("texts of length <= {} x 6 prefixes", n) };
     r.space(space, |seq, cx| {
         let s = build(seq, &alpha);
         cx.set_input(&s);
+        check_text(&s, cx);
+    })?;
+    r.range("C19/all-characters-in-context", &format!("{}; each c in the texts \"a\\nc\\nb\", \"c\", \"a\\n c\", \"c \\nb\\n\" x 6 prefixes", scalar_desc(t)), scalar_space(t), move |i, cx| {
+        let c = match scalar_at(t, i) {
+            Some(c) => c,
+            None => return,
+        };
+        cx.seq = idx_seq(i);
+        for s in [format!("a\n{c}\nb"), format!("{c}"), format!("a\n {c}"), format!("{c} \nb\n")] {
+            cx.set_input(&s);
+            check_text(&s, cx);
+        }
+    })
+}
+
+fn check_text(s: &str, cx: &mut Cx) {
+    {
+
         for p in ["", "  ", "# ", ">", "\t", " x "] {
             cx.eval();
             let d = || format!("prefix={:?}", p);
-            let out = match cx.guard(|| indent(&s, p)) {
+            let out = match cx.guard(|| indent(s, p)) {
                 Some(x) => x,
                 None => continue,
             };
             cx.outcome(&out);
-            let exp = ref_indent(&s, p);
+            let exp = ref_indent(s, p);
             if !p.is_empty() && s.matches('\n').count() >= 1 && s.split('\n').any(|l| l.trim().is_empty()) {
                 cx.nontrivial();
                 if cx.want_sample() {
@@ -43,5 +61,5 @@ fn run(r: &mut Run) -> Result<(), MachineryError> {
                 cx.check("C19-empty-prefix-is-identity", out == s, &d, &|| json!({"indent": out}));
             }
         }
-    })
+    }
 }
